@@ -109,8 +109,12 @@ impl BaseElement {
         let s_lo = s as u64;
         let z = (s_hi << 32) - s_hi;
         let (res, over) = s_lo.overflowing_add(z);
+        let res = res.wrapping_add(0u32.wrapping_sub(over as u32) as u64);
 
-        BaseElement::from_mont(res.wrapping_add(0u32.wrapping_sub(over as u32) as u64))
+        // the folded product can still be in [M, 2^64): bring it back into the canonical range
+        let (red, borrow) = res.overflowing_sub(M);
+        let mask = 0u64.wrapping_sub(borrow as u64);
+        BaseElement::from_mont((res & mask) | (red & !mask))
     }
 }
 
